@@ -18,6 +18,11 @@ Hardening pass (notes/C20.md): every part also runs the same requests in the oth
   chain    the array / numpy scalar returned by one call fed to the next call
   sync     one deviation at a time over every delay: sps {1,3,8}, record / slot dtypes, library classes with a noise
            component, record lengths, amplitude scale / offset, grid histories, PRBS9 / PRBS11 / PRBS15
+
+Strengthening after seeded wave 4 (notes/C20.md): NON-INTEGRAL requests for the integer-valued parameters (pattern length,
+PRBS order, bit shift; get_data size / start address): whole-valued floats and values one ulp / 1e-9 / 1e-6 / a fraction away
+from every legal value, in every floating-point container; the command monitor validates the value TEXT of these commands
+(c20_fake.int_value) instead of truncating it.
 """
 from __future__ import annotations
 import contextlib
@@ -147,14 +152,34 @@ def plain(a):
     return a
 
 
+def has_float(a):
+    """the argument carries a floating-point number (Python float, numpy floating scalar / 0-d / array, or a list / tuple
+    holding one)"""
+    t = _tag(a)
+    if t in ('np', 'nps', 'np0'):
+        return np.dtype(a[1]).kind == 'f'
+    if t in ('tup', 'mix'):
+        return any(has_float(x) for x in a[1])
+    if t == 'len':
+        return has_float(a[1])
+    if isinstance(a, (list, tuple)):
+        return any(has_float(x) for x in a)
+    return isinstance(a, (float, np.floating))
+
+
 def lenient_call(op, raw):
     """argument types the driver does not document (its docstrings: int / float / Array_Like): numpy scalars other than
-    float64 (which IS a Python float), 0-d arrays, bool, bool arrays as values, floats for integer parameters.  The
+    float64 (which IS a Python float), 0-d arrays, bool, bool arrays as values, floats for integer parameters (scalar or
+    inside any container; strengthening after seeded wave 4: these are now enumerated for every integer-valued setter).  The
     driver documents ValueError for 'not in the correct format'; the statement is silent on them.  For these calls a
     ValueError/TypeError is tolerated; whatever IS emitted still goes through the monitor and, when the call is accepted,
     through the full clamp-and-warn model."""
     for j, a in enumerate(raw):
         if isinstance(a, bool):
+            return True
+        if j == 0 and op in INT_SETTERS and has_float(a):      # documented int / Array_Like(int): floats in any container
+            return True
+        if j in (0, 1) and op == 'get_data' and has_float(a):  # size, start_addrs: documented int
             return True
         t = _tag(a)
         if t in ('np0', 'len'):
@@ -246,7 +271,7 @@ def step(fake, ppg, op, args=(), kw=None):
         oor = e['oor']
         if not exc:
             chk = e['check'](fake)
-            if any(k.startswith('cmd:out-of-range') for k, _ in viol):    # the monitor already reports the raw value
+            if any(k.startswith(('cmd:out-of-range', 'cmd:non-integral')) for k, _ in viol):    # the monitor already reports the raw value
                 chk = [(k, m) for k, m in chk if not k.endswith(':register-not-clamped-request')]
             viol += chk
             if fake.writes() != before.writes():
@@ -304,12 +329,17 @@ def step(fake, ppg, op, args=(), kw=None):
         chs = args[2] if len(args) > 2 else None
         req, ch_oor = (chan_list(chs) if not tolerated else ([], False))
         clipped = [clamp(c, 1, NCH) for c in req]
-        if not exc:
+        frac = any(isinstance(a, float) and not float(a).is_integer() for a in (size, start))
+        if not exc and frac:
+            # a non-integral size / start address (documented: ValueError) was accepted: there is no reference for what is
+            # read; the commands it emitted went through the monitor (a fractional address / count does not parse)
+            pass
+        elif not exc:
             # documented (Warns): an out-of-range start address or size is set "to the nearest value" with a warning
             start_req, start = start, clamp(start, 1, MEM)
             keep = clamp(size, 1, MEM - start + 1)
             oor = ch_oor or keep != size or start != start_req
-        if not exc:
+        if not exc and not frac:
             try:
                 n_ret = len(ret)
             except TypeError:
@@ -414,10 +444,14 @@ def single_case(case):
     observations.append((tuple(lines), dexc[:2] if dexc else None, dnw > 0))
     if _tag(args[0]) == 'np' and args[0][1] in ('float16', 'float32'):      # limits that a narrow float type cannot hold: own key
         viol = [(k + f'@{args[0][1]}-array' if k.endswith(':register-not-clamped-request') else k, m) for k, m in viol]
+    if op != 'set_freq' and any(abs(x) >= 2 ** 63 for x in np.ravel(np.asarray(plain(args[0]), dtype=object)) if isinstance(x, (int, float))):
+        # a request that numpy cannot hold as int64 (uint64 / object / huge float): own key
+        viol = [(k + '@beyond-int64' if k.endswith(':register-not-clamped-request') else k, m) for k, m in viol]
     nt = info['oor'] or any(isinstance(a, list) or _tag(a) for a in args)
     return res(viol=_dedup(viol), obs=tuple(observations), nontrivial=bool(nt),
                stats={'transitions': ntr, 'commands': len(fake.log), 'dry_run_lines': len(lines),
-                      'oor_calls': int(info['oor'])})
+                      'oor_calls': int(info['oor']),
+                      'non_integral_values_on_the_wire': sum(v for k, v in fake.stats.items() if k.startswith('non_integral_'))})
 
 
 def _dedup(viol):
@@ -535,6 +569,89 @@ def typed_value_cases(op, tier):
     return out
 
 
+# ---- strengthening after seeded wave 4: NON-INTEGRAL requests for the integer-valued parameters
+# anchors: every legal value class of the parameter (both limits, interior, every supported order) + unsupported / outside ones
+FRAC_ANCHORS = {
+    'set_prbs_order': list(ORDERS) + [8, 20, 0, 40],
+    'set_patt_len': [2, 3, 127, 1000, 2 ** 21 - 1, 2 ** 21, 1, 0, 2 ** 21 + 1],
+    'set_bits_shift': [0, 1, 10, -3, 2 ** 30 - 1, -(2 ** 30 - 1)],
+}
+# distance from the anchor: 0 = the whole number as a float ('7.0' on the wire); fractions whose integer part
+# is the anchor (.5, .4, .97) or the anchor's lower neighbour (-.5); 1e-6; 1e-9; one ulp
+FRAC_OFFS = [0.0, 0.5, 0.4, -0.5, 0.97, 1e-6, -1e-6, 1e-9, -1e-9, 'ulp+', 'ulp-']
+
+
+def frac_values(op):
+    out = []
+    for a in FRAC_ANCHORS[op]:
+        for d in FRAC_OFFS:
+            if d == 'ulp+':
+                v = float(np.nextafter(float(a), np.inf))
+            elif d == 'ulp-':
+                v = float(np.nextafter(float(a), -np.inf))
+            else:
+                v = float(a) + d
+            out.append(v)
+    return list(dict.fromkeys(out))
+
+
+def fractional_cases(op, tier):
+    """every integer-valued setter with floating-point requests: whole-valued floats, values one ulp / 1e-9 / 1e-6 / a fraction
+    away from every anchor, as Python float, numpy float64 / float32 scalar, 0-d array, one-element list, per-channel list /
+    tuple / float64 / float32 / float16 / read-only array, list mixing int and float, list mixing numpy and Python numbers;
+    non-finite and huge floats in the per-channel forms (they cannot travel as int)"""
+    th = tier == 'thorough'
+    vals = frac_values(op)
+    n = len(vals)
+    anchors = FRAC_ANCHORS[op]
+    out = []
+    for j, v in enumerate(vals):            # simplest first: one value
+        out.append((op, ([v], 3)))
+        out.append((op, ([v], None)))                         # one value for four channels
+        for form in (('len', v), ('nps', 'float64', v), ('nps', 'float32', v), ('np0', 'float64', v)):
+            for chs in ((None, 2, [0, 5]) if th else (None, 2)):
+                out.append((op, (form, chs)))
+    for j, v in enumerate(vals):
+        # per-channel forms: v first, the other entries walk through the alphabet (stride coprime to its length)
+        v4 = [vals[(j + i * 7) % n] for i in range(4)]
+        ints = [anchors[(j + i) % len(anchors)] for i in range(4)]
+        mixed = [v4[i] if i % 2 == 0 else ints[i] for i in range(4)]           # float, int, float, int
+        mixed2 = [ints[i] if i % 2 == 0 else v4[i] for i in range(4)]          # int, float, int, float
+        forms4 = [v4, ('tup', tuple(v4)), ('np', 'float64', v4), ('np', 'float64', v4, 'ro'), mixed, mixed2, ('mix', mixed),
+                  ('mix', v4)]
+        for dt in ('float32', 'float16'):
+            if fits(v4, dt):
+                forms4.append(('np', dt, v4))
+        for f in forms4:
+            out.append((op, (f, None)))
+        chx = [[1, 3], ('tup', (4, 1)), [0, 5], ('np', 'int64', [2, 2])]
+        for ci, chs in enumerate(chx):
+            fl = forms4 if th else [forms4[(j + ci) % len(forms4)]]
+            for f in fl:
+                t = _tag(f)
+                if t == 'tup':
+                    f2 = ('tup', f[1][:2])
+                elif t == 'np':
+                    f2 = (f[0], f[1], f[2][:2]) + f[3:]
+                elif t == 'mix':
+                    f2 = ('mix', f[1][:2])
+                else:
+                    f2 = f[:2]
+                out.append((op, (f2, chs)))
+    # scale: non-finite / huge floats can only be requested through a floating-point container
+    big = [float('inf'), float('-inf'), 1e300, -1e300, 2.0 ** 62, 1e19] if op != 'set_bits_shift' else [2.0 ** 40, -2.0 ** 40]
+    for b in big:
+        out.append((op, ([b], 1)))
+        out.append((op, (('np', 'float64', [b, float(anchors[0]), float(anchors[1]) + 0.5, b]), None)))
+        out.append((op, ([anchors[0], b], [2, 3])))
+    if op != 'set_bits_shift':      # ... and the same magnitudes as Python int (beyond int64: numpy holds them as uint64 / object)
+        for b in (10 ** 19, -10 ** 19, 2 ** 63, 2 ** 64, 10 ** 30):
+            out.append((op, (b, 1)))
+            out.append((op, ([b], [2])))
+            out.append((op, ([anchors[0], b], [2, 3])))
+    return out
+
+
 FREQ_X = [10 ** 10, 10 ** 12, 0, -1, 32 * 10 ** 9, 15 * 10 ** 8, 15 * 10 ** 8 - 1, 32 * 10 ** 9 + 1,
           ('nps', 'float64', 5e10), ('nps', 'float64', 1.5e9), ('nps', 'float32', 5e10), ('nps', 'float32', 32e9),
           ('nps', 'float32', 1.5e9), ('nps', 'float32', 1e9), ('nps', 'int64', 10 ** 12), ('nps', 'int64', 10 ** 10),
@@ -601,6 +718,9 @@ def single_cases(tier):
             for v in vals[len(V[op]):]:
                 cases.append((op, (v, chs)))
         cases += typed_value_cases(op, tier)
+    # ---- strengthening after seeded wave 4 (appended)
+    for op in INT_SETTERS:
+        cases += fractional_cases(op, tier)
     return cases
 
 
@@ -615,18 +735,21 @@ AGG3 = {  # level 3: per-channel forms that violate BOTH limits in one call (cut
     'offset': ('tup', (-20, 7, -2.0, 3.0)), 'bsh': ('np', 'int64', [-7, 10, 0, 3]), 'skew': [-1e-10, 1e-10, -25e-12, 25e-12],
     'mode': 'DATA', 'order': ('np', 'uint8', [0, 40, 7, 31]), 'data': None,
 }
+AGG4 = {  # level 4 (strengthening after seeded wave 4): non-integral per-channel requests for the integer-valued arguments
+    'patt_len': [1000.5, 2.4, 1.5, 2 ** 21 + 0.5], 'order': ('np', 'float64', [7.4, 9.97, 23.0, 31.5]), 'bsh': ('tup', (0.5, -2.5, 3.0, 10.25)),
+}
 AGG_SETTER = {'patt_len': 'set_patt_len', 'Vout': 'set_output_voltage', 'offset': 'set_offset', 'bsh': 'set_bits_shift',
               'skew': 'set_skew', 'order': 'set_prbs_order'}
 
 
 def agg_case(case):
-    op, choice, chs_raw = case      # choice: tuple of 0 absent / 1 in-range / 2 out-of-range / 3 per-channel both limits
+    op, choice, chs_raw = case      # choice: tuple of 0 absent / 1 in-range / 2 out-of-range / 3 per-channel both limits / 4 non-integral
     chs = plain(chs_raw)
     m = min(len(chan_list(chs)[0]), NCH)
     kw_raw = {}
     for (name, a, b), c in zip(AGG, choice):
-        if c == 3:
-            v = AGG3[name]
+        if c in (3, 4):
+            v = AGG3[name] if c == 3 else AGG4[name]
             if name == 'data':          # one row per requested channel, 1030 bits each (two blocks)
                 v = ('tup', tuple(tuple(int(bg(11 + r, i)) for i in range(1030)) for r in range(m)))
             elif _tag(v) == 'tup':
@@ -651,7 +774,9 @@ def agg_case(case):
     any_ch_arg = any(k not in ('freq', 'order', 'data') for k in kw) or ('order' in kw and kw.get('mode') == 'PRBS') \
         or ('data' in kw and kw.get('mode') == 'DATA')
     oor = False
-    if exc:
+    if exc and 4 in choice and exc[0] in ('ValueError', 'TypeError'):
+        pass        # floats for an integer parameter are not a documented type: a refusal is tolerated (see lenient_call)
+    elif exc:
         viol.append((f'{exc[1]}:raises-{exc[0]}', f'{sig} raised {exc[0]}: {exc[2]}'))
     else:
         touched = set()
@@ -673,7 +798,8 @@ def agg_case(case):
                     oor_ops.append(sop)
                 touched.add(SETTERS[sop][0])
                 viol += [(k, m) for k, m in e['check'](fake) if 'touches-other' not in k
-                         and not (k.endswith(':register-not-clamped-request') and any(q.startswith('cmd:out-of-range') for q, _ in viol))]
+                         and not (k.endswith(':register-not-clamped-request')
+                                  and any(q.startswith(('cmd:out-of-range', 'cmd:non-integral')) for q, _ in viol))]
             elif name == 'order' and name in kw:
                 touched.add('plen')         # statement silent on whether order is applied without mode='PRBS'
         if 'mode' in kw:
@@ -699,8 +825,9 @@ def agg_case(case):
         if op == '__call__' and ret != 'Done':
             pass    # return value is not part of the statement
     obs = (tuple(fake.log), exc[:2] if exc else None, nw > 0)
-    return res(viol=_dedup(viol), obs=obs, nontrivial=bool(2 in choice or 3 in choice or ch_oor),
-               stats={'transitions': 1, 'commands': len(fake.log), 'oor_calls': int(oor or 2 in choice or 3 in choice)})
+    return res(viol=_dedup(viol), obs=obs, nontrivial=bool(2 in choice or 3 in choice or 4 in choice or ch_oor),
+               stats={'transitions': 1, 'commands': len(fake.log), 'oor_calls': int(oor or 2 in choice or 3 in choice),
+                      'non_integral_values_on_the_wire': sum(v for k, v in fake.stats.items() if k.startswith('non_integral_'))})
 
 
 def agg_cases(tier):
@@ -727,6 +854,20 @@ def agg_cases(tier):
                 cases.append((op, tuple(s * 3 for s in sub), chs))
     for i in range(n):                                           # exactly one per-channel form, the rest in-range scalars
         cases.append(('config', tuple(3 if j == i else 1 for j in range(n)), ('tup', (2, 3, 4))))
+    # strengthening after seeded wave 4: non-integral per-channel requests for the integer-valued arguments - each alone, each
+    # with every other argument in range, every pair, all three (order is applied with mode='PRBS' = the in-range mode)
+    names = [a[0] for a in AGG]
+    ints = [names.index(k) for k in ('patt_len', 'order', 'bsh')]
+    imode = names.index('mode')
+    for r in (1, 2, 3):
+        for sub in itertools.combinations(ints, r):
+            for rest in (0, 1):
+                choice = [rest] * n
+                for i in sub:
+                    choice[i] = 4
+                choice[imode] = 1
+                for op, chs in (('__call__', None), ('config', [1, 3]), ('__call__', ('tup', (0, 5))), ('config', 2)):
+                    cases.append((op, tuple(choice), chs))
     cases.sort(key=lambda c: (sum(1 for x in c[1] if x), sum(c[1])))
     return cases
 
@@ -882,8 +1023,11 @@ def getsweep_case(case):
     fake = Fake()
     ppg = new_ppg(fake)
     n = plain(size)
-    s_req = start if isinstance(start, int) else MEM - n + 1 + {'end-1': -1, 'end': 0, 'end+1': 1}[start]
-    s_c = clamp(s_req, 1, MEM)
+    if _tag(start):                  # a start address of an undocumented type (float)
+        s_req, s_c = start, clamp(int(plain(start)), 1, MEM)
+    else:
+        s_req = start if isinstance(start, int) else MEM - n + 1 + {'end-1': -1, 'end': 0, 'end+1': 1}[start]
+        s_c = clamp(s_req, 1, MEM)
     w0 = clamp(s_c - 700, 1, MEM - 1499)            # 1500 known bits around the first address read, the rest is background
     rows = bits_for(seed, 1500, w0, 1)
     viol, o1, _ = step(fake, ppg, 'set_data', (('arr', tuple(rows[0].tolist())), w0, None))
@@ -901,6 +1045,11 @@ def getsweep_cases(tier, seed):
     cases = [(seed, n, s, c) for n in sizes for s in starts for c in chsel if not (n < 1 and not isinstance(s, int))]
     for n in (('nps', 'int64', 5), ('nps', 'int32', 1024), ('len', 1024.0), True):      # undocumented size types
         cases += [(seed, n, 1, c) for c in chsel[:3]]
+    # strengthening after seeded wave 4: non-integral size / start address (documented: ValueError; nothing fractional may reach the wire)
+    for n in (('len', 1024.5), ('len', 2.5), ('len', 0.5), ('nps', 'float64', 1024.5), ('nps', 'float32', 3.5), ('len', 2048.0000001)):
+        cases += [(seed, n, s, c) for s in (1, 1000) for c in chsel[:3]]
+    for s in (('len', 1.5), ('len', 1024.5), ('len', 1000.0), ('nps', 'float64', 2.5), ('len', 0.5)):
+        cases += [(seed, n, s, c) for n in (8, 1025) for c in chsel[:3]]
     return cases
 
 
@@ -1041,6 +1190,8 @@ def bfs_actions(tier):
         # hardening pass: other containers / dtypes inside call sequences
         ('set_offset', (('np', 'int8', [-20, 7]), ('tup', (2, 3)))), ('set_skew', (('np', 'float64', [-1e-9, 1e-10], 'ro'), [1, 4])),
         ('set_data', (('tup', ((1, 0, 1, 1), (0, 0, 1, 0))), 1023, ('np', 'int64', [3, 1]))), ('get_data', (1025, 1023, ('tup', (1, 3)))),
+        # strengthening after seeded wave 4: non-integral requests for integer-valued parameters inside call sequences
+        ('set_prbs_order', ([9.97, 23.5], [1, 2])), ('set_patt_len', (('np', 'float64', [1000.5, 1.5]), [3, 4])),
     ]
     if tier == 'thorough':
         acts += [('set_freq', (1.5e9,)), ('set_output_voltage', (0.0, 1)), ('set_offset', (-2.0, 4)),
@@ -1446,7 +1597,14 @@ def run(ctx):
              'start/size; chain: returned arrays and numpy scalars fed to the next call; sync: one deviation at a time over '
              'every delay: sps {1,3,8}, record dtypes int8..int64/float16/float32/complex/bool, slot dtypes, library classes with '
              'a noise component, record lengths 2l-1/2l/2l+1/5l/l+d/l+d+1, amplitude scale 1e-9..1e6, offset 1e3/1e6, grid '
-             'configured through (R,fs), PRBS9/11/15')
+             'configured through (R,fs), PRBS9/11/15; '
+             'strengthening after seeded wave 4: non-integral requests for the integer-valued parameters (pattern length, PRBS '
+             'order, bit shift): anchors = both limits / interior / every supported order / unsupported and outside values, '
+             'offsets 0 (whole-valued float), +-ulp, +-1e-9, +-1e-6, +.4, +-.5, +.97, as Python float, numpy float64/float32 scalar, '
+             '0-d array, one-element list, per-channel list / tuple / float64 / float32 / float16 / read-only array, int+float '
+             'mixed lists, +-inf / 1e300 / 2^62 / 1e19 in float containers and 10^19, 2^63, 2^64, 10^30 as Python int; the same in '
+             'the aggregate call, in bfs sequences and as get_data size / start address; the value text of LENG / PLEN / BSH '
+             'commands must spell a whole number (order: one of the supported list), it is never int()-truncated')
     for c in REGRESS_SINGLE:
         ctx.run_case('regress', single_case, c)
     for c in REGRESS_DATA:
